@@ -137,6 +137,14 @@ func WorkerMain() {
 			}
 			if !noDet && *detEvery > 0 && run%uint64(*detEvery) == 0 {
 				res2 := s.Run(tape.Replay(rec), cfg)
+				if res2.Violation != nil {
+					// the same tape, executed again, violated the property: that execution happened (classes
+					// that run real goroutines depend on their timing); it is reported as what it is
+					emit(Line{T: "violation", Run: run, Class: res2.Violation.Class, Detail: res2.Violation.Detail + " [seen when the run was executed a second time from its recorded tape; the first execution passed]",
+						Tape: rec, Trace: res2.Trace, Sample: res2.Sample, Hash: res2.TraceHash(), Known: res2.Known})
+					emit(Line{T: "done"})
+					return
+				}
 				if res2.TraceHash() != res.TraceHash() {
 					emit(Line{T: "nondet", Run: run, Msg: "trace hash differs on re-execution from the recorded tape",
 						Tape: rec, Trace: diffTrace(res.Trace, res2.Trace)})
